@@ -150,6 +150,11 @@ def main():
     counts, miss = gen_conn_exits.generate(REPO)
     vals.update(counts)      # CONN_EXIT_SITES, WS_EXIT_SITES, QUIC_EXIT_SITES
     missing += list(miss)
+    # C18: every place that makes a PeerId from key material -> coq/gen/PeerIdSites.v (sibling script)
+    import gen_c18_sites
+    counts, miss = gen_c18_sites.generate(REPO)
+    vals.update(counts)      # PEER_ID_SITES
+    missing += list(miss)
     str_names = []
     for name, path, rx in STR_CONSTS:
         try:
